@@ -56,6 +56,9 @@ SEEDS = {
  'C05-G': ('tests', './tests', 'TestMutD_'), 'C16-E': ('rfcparser', './rfcparser', 'TestMutE_ParseNumberBoundary'),
  'C13-F': ('rfc822', './rfc822', 'TestW6aA_ScannerIgnoresLongerBoundary'), 'C13-G': ('tests', './tests', 'TestW6aB_'),
  'C07-E': ('tests', './tests', 'TestW6aC_'), 'C03-F': ('tests', './tests', 'TestW6aD_'), 'C07-F': ('tests', './tests', 'TestW6aE_'),
+ 'C14-D': ('tests', './tests', 'TestDemoA_RenameOnlyRewritesTheLeadingPath'), 'C17-E': ('tests', './tests', 'TestDemoB_MultiMessageCopyCannotCrossMessageLimit'),
+ 'C20-F': ('tests', './tests', 'TestDemoC_RejectedAppendIsKeptAgainAfterRecoveryExpunge'), 'C10-I': ('imap/command', './imap/command', 'TestDemoA_AppendDateTimeZonesBeyondTwelveHours'),
+ 'C11-G': ('imap/command', './imap/command', 'TestDemoB_TagIsKeptWhenCRIsNotFollowedByLF'), 'C18-F': ('tests', './tests', 'TestDemoC_CloseOfExaminedMailboxLeavesSelectedState'),
 }
 # demo files that belong to another package than the main demo (skipped in the confirmation run)
 SKIP = {'C13-F': ['w6a_a_nested_boundary_test.go'], 'C10-H': ['demo_b_id_wire_test.go'], 'C08-E': ['demo_d_store_wire_test.go'], 'C08-F': ['demo_e_single_unknown_mailbox_wire_test.go'], 'C16-E': ['mut_e_test.go'], 'C18-E': ['zz_c18_login_exact_test.go'], 'C11-D': ['zz_demo_c11a_wire_test.go'], 'C01-D': ['demo_merge_expunge_wire_test.go'], 'C01-E': ['demo_silent_store_wire_test.go'], 'C13-E': ['demo_c_fetch_empty_part_test.go'], 'C17-C': ['demo_d_message_limit_test.go'], 'C01-A': ['c01_uid_range_seq_test.go'], 'C16-A': ['zz_demo_a_wire_test.go'], 'C16-B': ['zz_demo_b_wire_test.go'], 'C05-A': ['c05_mutA_readd_demo_test.go']}
